@@ -107,7 +107,7 @@ def _module(cases):
     exprs = []
     for c in cases:
         exprs += c["n"] + [c["st"]]
-    needs = ["HasRepr"] if any("Opaque" in e for e in exprs) else []
+    needs = ["HasRepr"] if any("Opaque" in e or "Flk" in e for e in exprs) else []
     return P.module([_site(i, c) for i, c in enumerate(cases)], exprs, needs)
 
 
